@@ -12,7 +12,7 @@ from harness import common
 from harness.common import dec, dec_list, enc, enc_list
 
 ID = "C01"
-LEAN_MODULES = ["PptxModel.Props.C01"]
+LEAN_MODULES = ["PptxModel.Props.C01", "PptxModel.Props.C01G"]
 RULE = (
     "seeded random OPC packages: 1..14 parts at directory depth 1..5, relationship graphs with cycles, shared targets, "
     "several relationships to one part, external links, targets written as proper relative references, './x', '../' "
